@@ -447,6 +447,10 @@ class TreeMapView(Mapping[TreeMapKey, LeafValueT]):
     if key_path == Key() or _is_key(key_path[0], _SELF):
       return value
 
+    # SKIP discards the value, also when there is nothing to insert into yet.
+    if _is_key(key_path[0], _SKIP):
+      return tree
+
     # Not a mutable container, constructs the mutable counterpart first.
     container_maker = None
     if isinstance(tree, NullMap):
